@@ -13,7 +13,7 @@ use serde::{Deserialize, Serialize};
 use serde_json::Value;
 use std::io::Cursor;
 
-pub const RULE: &str = "inputs: (G1) arbitrary byte strings 0..4KiB with and without the magic patched in, (G2) structured mutations of small valid frames (every truncation point, bad magic, trailing bytes, splices, each length field replaced by boundary values, byte flips), (G3) 48-byte headers over the cross product of boundary values for (length, query_length, body_length) incl. sums that wrap mod 2^64 and unallocatable sizes; fed to the 5 slice parsers in-process and to the 4 stream readers (Cursor / dribble / failing reader) in child processes; oracle = u128 reference parser; non-trivial = input has >=48 bytes and the correct magic (reaches the length logic); distinct = distinct case hash";
+pub const RULE: &str = "inputs: (G1) arbitrary byte strings 0..4KiB with and without the magic patched in, (G2) structured mutations of small valid frames (every truncation point, bad magic, trailing bytes, splices, each length field replaced by boundary values, byte flips), (G3) 48-byte headers over the cross product of boundary values for (length, query_length, body_length) incl. sums that wrap mod 2^64 and unallocatable sizes; fed to the 5 slice parsers in-process and to the 4 stream readers (Cursor / dribble / failing reader) in child processes; oracle = u128 reference parser; (remote) a child process hosts Server, AsyncServer and the WebSocket server, receives each hostile header on a fresh connection and must then still answer a valid call; the three clients, run in child processes, receive hostile response headers from a scripted peer and must return an error; non-trivial = input has >=48 bytes and the correct magic (reaches the length logic); distinct = distinct case hash";
 
 pub const ASSUMPTIONS: &[&str] = &[
     "stream-reader cases with a consistent header declare each payload length <= 16 MiB or >= 2^62, so no outcome depends on machine memory (the property's own restriction)",
